@@ -87,28 +87,43 @@ func c19SameRenamed(a, b interface{}, old, new, path string) string {
 	switch x := a.(type) {
 	case map[string]interface{}:
 		y, ok := b.(map[string]interface{})
-		if !ok || len(x) != len(y) {
+		if !ok || len(x) < len(y) {
 			return path + " (object shape)"
 		}
-		for k, va := range x {
-			vb, ok := y[k]
-			if !ok && k == old {
-				vb, ok = y[new]
+		// Keys are identifiers (parameter names, call ids).  A rename may make
+		// two keys of a call-id keyed object equal (the fork index of a
+		// reference is keyed by bare call ids, which are not unique across
+		// pipelines); such merged keys are compared by presence only.
+		image := map[string]string{}
+		hits := map[string]int{}
+		for k := range x {
+			k2, ok := k, false
+			if _, ok = y[k]; !ok && k == old {
+				k2 = new
+				_, ok = y[k2]
 			}
 			if !ok {
-				// a key holding the identifier inside a longer name
-				for k2, v2 := range y {
-					if k2 != k && c19StrRenamed(k, k2, old, new) {
-						if _, dup := x[k2]; !dup {
-							vb, ok = v2, true
-						}
+				for cand := range y {
+					if cand != k && c19StrRenamed(k, cand, old, new) {
+						k2, ok = cand, true
+						break
 					}
 				}
 			}
 			if !ok {
 				return path + "." + k + " (missing)"
 			}
-			if d := c19SameRenamed(va, vb, old, new, path+"."+k); d != "" {
+			image[k] = k2
+			hits[k2]++
+		}
+		if len(hits) != len(y) {
+			return path + " (object shape)"
+		}
+		for k, va := range x {
+			if hits[image[k]] > 1 {
+				continue
+			}
+			if d := c19SameRenamed(va, y[image[k]], old, new, path+"."+k); d != "" {
 				return d
 			}
 		}
@@ -439,9 +454,18 @@ func c19MapWithoutSplit(f c19Files) bool {
 				break
 			}
 			rest = rest[i+9:]
-			j := strings.Index(rest, "\n    )")
-			if j < 0 {
-				j = len(rest)
+			// the binding list: up to the parenthesis matching the first one
+			depth, j := 0, len(rest)
+			for k := 0; k < len(rest); k++ {
+				if rest[k] == '(' {
+					depth++
+				} else if rest[k] == ')' {
+					depth--
+					if depth == 0 {
+						j = k
+						break
+					}
+				}
 			}
 			if !strings.Contains(rest[:j], "split ") {
 				return true
@@ -456,6 +480,23 @@ func c19MapWithoutSplit(f c19Files) bool {
 // c19Judge applies the edit to the files and reads the property.  Returns
 // "ok", "skip" or "FAIL <class> <detail>".
 func c19Judge(fa c19Files, e c19Edit, top string, roundTrip bool) string {
+	res := c19JudgeRaw(fa, e, top, roundTrip)
+	if strings.HasPrefix(res, "FAIL ") {
+		f := strings.SplitN(res, " ", 3)
+		// the failure class names the input family, not the symptom, for the
+		// two families recorded as known findings
+		switch {
+		case strings.Contains(f[1], "_wildcard_"):
+			f[1] = e.Kind + "_wildcard"
+		case strings.HasSuffix(f[1], "_map_loses_split"):
+			f[1] = "map_loses_split"
+		}
+		return strings.Join(f, " ")
+	}
+	return res
+}
+
+func c19JudgeRaw(fa c19Files, e c19Edit, top string, roundTrip bool) string {
 	astA, err := c19Compile(fa)
 	if err != nil {
 		return "skip"
